@@ -1121,6 +1121,12 @@ samples.append(dict(fn="points_in_rectbox", bounds=box_coq[37][1]["bounds"], poi
                     impl=box_coq[37][1]["impl"]))
 
 # ---------------------------------------------------------------------------
+# ---- the glue model of the public functions (Model files added later, see manifest text) tied to the library on every run:
+#      inputs generated here, the library run on them, the model evaluated on the same inputs by vm_compute inside coqc
+import ties.tie_C17 as _tie_glue  # noqa: E402
+_tie_n = _tie_glue.run(chk, arim, rng, Q)
+chk.cov["glue_model_tie_comparisons"] = int(_tie_n or 0)
+
 chk.finish(
     evaluations=evaluations,
     distinct_nontrivial=len(nontrivial),
